@@ -218,8 +218,11 @@ struct Model {
 	int add(int i, bool has_tv, usec_t tv, int common, bool absolute = false, usec_t abs_deadline = 0) {
 		Ev &e = evs[i];
 		if (e.finalizing) return -1;
-		if ((e.events & (R_READ | R_WRITE | R_CLOSED | R_SIGNAL)) && !e.inserted && e.act == A_NONE)
+		if ((e.events & (R_READ | R_WRITE | R_CLOSED | R_SIGNAL)) && !e.inserted && e.act == A_NONE) {
 			q_insert_inserted(i);
+			// a fresh registration without a timeout forgets the interval of an earlier one
+			if (!has_tv && e.persist_closure && !e.timeout) { e.interval = 0; e.interval_common = -1; e.has_interval = false; }
+		}
 		if (has_tv) {
 			if (e.persist_closure && !absolute) {
 				e.interval = tv;
@@ -675,7 +678,8 @@ struct Model {
 		}
 		if (e.persist_closure && e.has_interval) {
 			usec_t nowv = gettime();
-			usec_t rel = (e.res & R_TIMEOUT) ? e.deadline : nowv;
+			bool timeout_only = (e.res & R_TIMEOUT) && !(e.res & (R_READ | R_WRITE | R_CLOSED | R_SIGNAL));
+			usec_t rel = timeout_only ? e.deadline : nowv;
 			usec_t run_at = rel + e.interval;
 			if (run_at < nowv) run_at = nowv + e.interval;
 			add(i, true, 0, e.interval_common, true, run_at);
